@@ -175,6 +175,15 @@ def structural_rules(ctx: Ctx):
     for x in sels:
         ctx.ob("R-C13-2", f"{q}.__post_init__/{x['attr']}:source", norm(x["src"]) == "self.extractors",
                f"selection ranges over `{norm(x['src'])}`", node=x["node"], mod=m)
+        if x["key"] is not None:
+            gens = x["gen"].generators
+            inner = gens[-1] if len(gens) == 2 else None
+            ok_inner = inner is not None and norm(inner.iter) == f"{x['var']}.strings" and not inner.ifs and isinstance(inner.target, ast.Name)
+            ok_pair = isinstance(x["gen"].elt, ast.Tuple) and norm(x["gen"].elt.elts[1]) == x["var"]
+            ctx.ob("R-C13-2", f"{q}.__post_init__/{x['attr']}:all-strings", ok_inner and ok_pair,
+                   "every string of the extractor's `strings` (the list the inclusion L(pattern) <= Sigma* strings Sigma* is decided for) must be put into the "
+                   f"automaton, paired with that extractor; the inner generator iterates `{norm(inner.iter) if inner is not None else '?'}`"
+                   f"{' with a filter' if inner is not None and inner.ifs else ''}", node=x["node"], mod=m)
     if len(sels) != 3:
         return
     # R-C13-3 partition
